@@ -48,6 +48,14 @@ func (o *Operations) archive(
 		return []*tar.Header{}, err
 	}
 
+	// Free the drive if we return before the writer has been closed
+	writerOpen := true
+	defer func() {
+		if writerOpen {
+			_ = o.backend.CloseWriter()
+		}
+	}()
+
 	dirty := false
 	tw, cleanup, err := tarext.NewTapeWriter(writer.Drive, writer.DriveIsRegular, o.pipes.RecordSize)
 	if err != nil {
@@ -261,6 +269,7 @@ func (o *Operations) archive(
 		index = 0 // If we are starting fresh, index from start
 	}
 
+	writerOpen = false
 	if err := o.backend.CloseWriter(); err != nil {
 		return []*tar.Header{}, err
 	}
